@@ -14,6 +14,7 @@ SLOT_OF = {'Conjunction': 'conjunction', 'Disjunction': 'disjunction', 'Implies'
 
 def check(ix, rep):
     from sa.rules import round11 as _r11
+    rep.floor('assignments of the closing sample in the online merge kernel', _r11.check_closing_sample_shape(ix, rep), 20)
     rep.floor('dense-time online operations that remember their frontier', _r11.check_seam(ix, rep), 2)
     rep.floor('calls of set_ast inside the interpreter classes', _r11.check_set_ast_callers(ix, rep), 1)
     rep.floor('sites that clear the ast-installed flag', _r11.check_set_ast_flag_writers(ix, rep), 1)
